@@ -75,7 +75,7 @@ PROPS = {
               dict(harness=BROKER_H, entries=r"^H_C05_RegisterPipeline$|^H_C07_pipeline_other_type$", params=dict(quick=dict(K=2, L=2), thorough=dict(K=3, L=3)), shards=dict(quick=16, thorough=16, H_C07_pipeline_other_type=8)),
               dict(harness=BROKER_H, entries=r"^H_C01_process_seq$", params=dict(quick=dict(P=2, N=2), thorough=dict(P=3, N=3)), shards=dict(quick=4, thorough=16))],
         must_reach=["C01.send.known", "C01.send.unknown", "C01.link.ok", "C01.process.end", "C05.register.ok", "C01.shared.end", "C01.two-sends.end", "C05.repeated.accepted", "C01.odd-removals.end"],
-        bounds=dict(quick="P<=2 pipelines x 2 nodes; list length<=5", thorough="P<=3 x 2..3 nodes"),
+        bounds=dict(quick="P<=2 pipelines x 2 nodes; list length<=5", thorough="P<=2 x 2..3 nodes (9 node outcomes each)"),
         trusted_base=COMMON_TRUST,
     ),
     "C11": dict(
@@ -265,6 +265,9 @@ ENTRY_PARAMS = {
     "H_C07_pipeline_other_type": dict(quick=dict(K=2, L=2), thorough=dict(K=2, L=2)),
     # K=3, L=4 costs 52 wall-minutes for C06's thorough tier (run #8), most of it here: deepen L only
     "H_C06_RemovePipelineAndNodes": dict(quick=dict(K=2, L=3), thorough=dict(K=2, L=4)),
+    # nine node outcomes per node: 3 pipelines x 3 nodes is 9^9 outcome vectors (run #9 hit the path cap); 2 x 3 is 9^6
+    "H_C01_process_seq": dict(quick=dict(P=2, N=2), thorough=dict(P=2, N=3)),
+    "H_C02_thresholds_preserved": dict(quick=dict(K=2, L=2), thorough=dict(K=2, L=3)),
 }
 # Entries that are not re-run under the other solvers in the thorough tier (hundreds of thousands of paths each; the
 # cross-solver agreement is sampled on every other entry, which exercise the same encodings)
